@@ -173,7 +173,9 @@ pub fn gen_bound(rng: &mut Rng, kind: Kind) -> Option<(F, F)> {
             // finite bounds of very large magnitude (finite is not infinite, whatever other tools' conventions say)
             10 => {
                 let big = [1e30, 2e30, 1e31, 1e100, 2e300, f64::MAX, 9.99e29, 1e20];
-                match rng.below(3) {
+                match rng.below(5) {
+                    3 => (0.0, -0.0),
+                    4 => (-0.0, rng.range(0, 4) as f64),
                     0 => (rng.half(3, false), big[rng.below(8) as usize]),
                     1 => (-big[rng.below(8) as usize], rng.half(3, false)),
                     _ => (-big[rng.below(8) as usize], big[rng.below(8) as usize]),
